@@ -17,6 +17,10 @@ CHECKS = {
    "0-16 calls in flight (with and without per-call timeouts) while the scripted server closes (FIN), resets, sends each kind of malformed header or cuts a response at each byte-offset class, before/after reading requests; timeouts racing response delivery at deadline-1ms..+50ms on the simulated clock. Every in-flight and later call must return (a hang is a kernel deadlock report), late responses are dropped, unrelated calls get their own reply, no pending entry remains.",
    "the peer always drains what the client writes (peer stalls belong to C05); simulated socket semantics.",
    "deterministic simulation: connection-fault enumeration x seeded schedules, deadlock detection on the simulated clock"),
+ "C19": ("fault_enumeration","3/C19",
+   "Real fleet (retry delay and call timeouts on the simulated clock) against scripted nodes that emit per-attempt outcome sequences over {refused, accepted-then-closed (FIN or RST), closed-while-idle, silent-until-timeout, malformed reply, application error, success} of length up to max_attempts+2 for max_attempts 1..3, then turn healthy; both orders of 'reader notices the close' vs 'caller writes' come from the seeded scheduler. Oracle from the node's own log: requests per call <= max_attempts, no retry after a reply, the reply (or an error) is what the call returns, and a healthy-phase call succeeds (not wedged). Broadcasts over tag subsets of up to 4 nodes address exactly the nodes carrying all tags, one result each.",
+   "simulated socket semantics (write after local shutdown = BrokenPipe, connect without listener = ConnectionRefused, both validated against Linux); a malformed reply may or may not be retried (the property leaves it open) but must not wedge the node.",
+   "deterministic simulation: scripted fault sequences x seeded schedules, node-log oracle, recovery (liveness) check after faults stop"),
  "C11": ("exploration","5.3/C11",
    "Seeded histories (systematic-size and long random) on the real TransferControl compared step by step with a credit model, plus the documented producer loop run against concurrent ack/advance/resume/cancel threads under seeded schedules; in-flight bound asserted after every send.",
    "simkernel Mutex/Condvar semantics; producer-side offsets < 2^56 and chunk lengths <= 2^48 (the property's bound); model written without repository code.",
@@ -50,7 +54,7 @@ PENDING = {
 "C09":"check under construction",
  "C10":"check under construction","C14":"check under construction","C15":"check under construction",
  "C16":"check under construction","C17":"check under construction","C18":"check under construction",
- "C19":"check under construction",
+
 }
 
 checks=[]
